@@ -230,6 +230,43 @@ def generate(rng, depth=2, n_files=14, symlinks=True, outside_links=False, big=F
                     t.add_link(d + "/link-up.txt", up + os.path.basename(rootfile[0]))   # ../x
         if len(dirs) > 1:
             t.add_link("/dirlink", dirs[1][1:])                                          # symlink to a directory
+    # the served directory's own absolute path once more below it (a backup, a mis-aimed rsync): string surgery on paths that
+    # strips or searches for the root "wherever it occurs" goes wrong here; plus a directory named like the root itself
+    nested = t.root            # url path "/<abs root>/..." inside the root
+    twin = "/nested-twin.txt"
+    mk = marker("MK", tag, twin)
+    t.add_file(twin, content(rng, 70, mk, "text"))
+    t.markers[mk] = twin
+    for name in (twin, "/only-nested.txt", "/only-nested.html"):
+        up = nested + name
+        mk = marker("MK", tag, up)
+        t.add_file(up, content(rng, 90, mk, "text"))
+        t.markers[mk] = up
+    d = t.root
+    while d != "/" and len(d) > 1:
+        t.dirs.add(d)
+        d = os.path.dirname(d)
+    up = "/" + os.path.basename(t.root) + "/in-namesake.txt"
+    mk = marker("MK", tag, up)
+    t.add_file(up, content(rng, 50, mk, "text"))
+    t.markers[mk] = up
+    t.dirs.add("/" + os.path.basename(t.root))
+    # file metadata nobody creates on purpose but archives, backups and clock mishaps do: modification times before 1970,
+    # at the epoch, on a 1st of January (zip's 1980-01-01), at the 32-bit limits, far in the future
+    MTIMES = [-86400 * 200, -1, 0, 1, 315532800, 946684800, 1704067200, 1735689600, 2147483647, 2147483648, 4102444800, 4294967296, 253402300799]
+    targets = sorted(t.files)
+    for k, up in enumerate(rng.sample(targets, min(len(targets), 8))):
+        mt = MTIMES[(k + rng.below(len(MTIMES))) % len(MTIMES)]
+        try:
+            os.utime(t.abs(up), (mt, mt))
+        except (OSError, OverflowError):
+            pass
+    for k, d in enumerate(sorted(t.dirs)[:3]):
+        mt = MTIMES[(2 * k + rng.below(len(MTIMES))) % len(MTIMES)]
+        try:
+            os.utime(t.abs(d), (mt, mt))
+        except (OSError, OverflowError):
+            pass
     if outside_links:
         # owner-placed links leading outside the root: their targets are explicitly allowed
         o1 = os.path.dirname(t.root)
